@@ -34,13 +34,16 @@ package object
 
 //@ func (*Int).runOperationInt
 //@ props C01
+//@ safety divzero
 //@ mode bv
 //@ requires i != nil
 //@ ensures[C01.int.add] opType == op.Add ==> isInt(result, i.value + right)
 //@ ensures[C01.int.sub] opType == op.Subtract ==> isInt(result, i.value - right)
 //@ ensures[C01.int.mul] opType == op.Multiply ==> isInt(result, i.value * right)
-//@ ensures[C01.int.div] opType == op.Divide ==> isInt(result, i.value / right)
-//@ ensures[C01.int.mod] opType == op.Modulo ==> isInt(result, i.value % right)
+//@ ensures[C01.int.div.zero] opType == op.Divide && right == 0 ==> typeof(result) == *Error
+//@ ensures[C01.int.div] opType == op.Divide && right != 0 ==> isInt(result, i.value / right)
+//@ ensures[C01.int.mod.zero] opType == op.Modulo && right == 0 ==> typeof(result) == *Error
+//@ ensures[C01.int.mod] opType == op.Modulo && right != 0 ==> isInt(result, i.value % right)
 //@ ensures[C01.int.xor] opType == op.Xor ==> isInt(result, i.value ^ right)
 //@ ensures[C01.int.and] opType == op.BitwiseAnd ==> isInt(result, i.value & right)
 //@ ensures[C01.int.or]  opType == op.BitwiseOr ==> isInt(result, i.value | right)
@@ -68,26 +71,32 @@ package object
 
 //@ func (*Byte).runOperationByte
 //@ props C01
+//@ safety divzero
 //@ mode bv
 //@ requires b != nil
 //@ ensures[C01.byte.add] opType == op.Add ==> isByte(result, b.value + right)
 //@ ensures[C01.byte.sub] opType == op.Subtract ==> isByte(result, b.value - right)
 //@ ensures[C01.byte.mul] opType == op.Multiply ==> isByte(result, b.value * right)
-//@ ensures[C01.byte.div] opType == op.Divide ==> isByte(result, b.value / right)
-//@ ensures[C01.byte.mod] opType == op.Modulo ==> isByte(result, b.value % right)
+//@ ensures[C01.byte.div.zero] opType == op.Divide && right == 0 ==> typeof(result) == *Error
+//@ ensures[C01.byte.div] opType == op.Divide && right != 0 ==> isByte(result, b.value / right)
+//@ ensures[C01.byte.mod.zero] opType == op.Modulo && right == 0 ==> typeof(result) == *Error
+//@ ensures[C01.byte.mod] opType == op.Modulo && right != 0 ==> isByte(result, b.value % right)
 //@ ensures[C01.byte.xor] opType == op.Xor ==> isByte(result, b.value ^ right)
 //@ ensures[C01.byte.and] opType == op.BitwiseAnd ==> isByte(result, b.value & right)
 //@ ensures[C01.byte.or]  opType == op.BitwiseOr ==> isByte(result, b.value | right)
 
 //@ func (*Byte).runOperationInt
 //@ props C01
+//@ safety divzero
 //@ mode bv
 //@ requires b != nil
 //@ ensures[C01.bytei.add] opType == op.Add ==> isInt(result, int64(b.value) + right)
 //@ ensures[C01.bytei.sub] opType == op.Subtract ==> isInt(result, int64(b.value) - right)
 //@ ensures[C01.bytei.mul] opType == op.Multiply ==> isInt(result, int64(b.value) * right)
-//@ ensures[C01.bytei.div] opType == op.Divide ==> isInt(result, int64(b.value) / right)
-//@ ensures[C01.bytei.mod] opType == op.Modulo ==> isInt(result, int64(b.value) % right)
+//@ ensures[C01.bytei.div.zero] opType == op.Divide && right == 0 ==> typeof(result) == *Error
+//@ ensures[C01.bytei.div] opType == op.Divide && right != 0 ==> isInt(result, int64(b.value) / right)
+//@ ensures[C01.bytei.mod.zero] opType == op.Modulo && right == 0 ==> typeof(result) == *Error
+//@ ensures[C01.bytei.mod] opType == op.Modulo && right != 0 ==> isInt(result, int64(b.value) % right)
 
 // ---- dispatch -----------------------------------------------------------------------------------------------
 
